@@ -53,6 +53,9 @@ def templates(tier="quick"):
     # T6 deps=msvc
     v = Variant("v0", [Stmt("obj", ex=["src"], hidden=["inc.h"], deps="msvc"), Stmt("exe", ex=["obj"])])
     T += _mk("deps_msvc", [v], tags=["deps-msvc"], depth=d)
+    # T6b a unity / amalgamation source: the first files the compiler reports are themselves .cpp / .c files
+    v = Variant("v0", [Stmt("unity.obj", ex=["unity.cpp"], hidden=["part1.cpp", "part2.c", "inc.h"], deps="msvc"), Stmt("exe", ex=["unity.obj"])])
+    T += _mk("deps_msvc_unity", [v], tags=["deps-msvc"], depth=d, max_fault_stmts=1)
 
     # T7 generated header with an order-only manifest path to its generator
     v = Variant("v0", [Stmt("gen.h", ex=["h.in"]),
@@ -120,6 +123,15 @@ def templates(tier="quick"):
         lib.rsp_manifest = var
         T += _mk("rspfile_" + var[1:], [Variant("v0", [lib, Stmt("exe", ex=["lib"])])], tags=["rspfile", "names"], depth=2, js=(1, 2),
                  max_fault_stmts=1, edits_during=False)
+
+    # T13e writing the response file (or creating a directory) fails: every file operation of a build with response files
+    # in subdirectories is made to fail once -- nothing may start without what it needs
+    vf = Variant("v0", [Stmt("out/x.o", ex=["s"]), Stmt("out/lib", ex=["out/x.o"], rsp=("out/lib.rsp", "out/x.o")),
+                        Stmt("exe", ex=["out/lib"], rsp=("exe.rsp", "out/lib"))])
+    fops = [{"op": "edit", "path": "s", "label": "edit s"}, ninja_op(j=1),
+            dict(ninja_op(j=2, subsets=False, label="ninja -j2 [a fault at every file operation]"), crash=True, no_expand=True)]
+    T.append(scenario("rspfile_io_errors/fresh", "template", [vf], ops=fops, init=[], depth=1, tags=["rspfile", "io-errors", "fresh"]))
+    T.append(scenario("rspfile_io_errors/built", "template", [vf], ops=fops, init=[1], depth=2, tags=["rspfile", "io-errors", "built"]))
 
     # T13c the command with the response file succeeds, but the build is stopped by an error found while finishing it:
     # the dyndep file it produced does not parse
@@ -338,6 +350,20 @@ def templates(tier="quick"):
     v = Variant("v0", [Stmt("dd", ex=["dd.in"], copy=True), e, Stmt("g", ex=["g.in"]), Stmt("f", ex=["e", "g"])], defaults=["f"])
     T += _mk("dyndep_supplies_restat", [v], tags=["dyndep", "restat"], depth=5, js=(2, 3), files={"dd.in": ddr}, touch=True,
              with_faults=False, with_rm=False, edits_during=False, touch_only=("dd.in",))
+
+    # T36 the regeneration-style statement (generator + restat) whose output exists but has no record in the build log:
+    # the state right after the generator was run by hand, or after the log was lost
+    v = Variant("v0", [Stmt("cfg.out", ex=["cfg.in"], generator=True, restat=True), Stmt("use", ex=["cfg.out"]), Stmt("top", ex=["use"])])
+    T += _mk("generator_restat_no_log", [v], tags=["generator", "restat"], depth=d, touch=True, js=(1, 2), max_fault_stmts=1, edits_during=False)
+    T[-1]["ops"].append({"op": "rm", "path": ".ninja_log", "label": "rm .ninja_log"})
+    T[-2]["ops"].append({"op": "rm", "path": ".ninja_log", "label": "rm .ninja_log"})
+
+    # T37 an alias with nothing to do of its own behind which two producers are still at work (the `headers: phony || h1 h2`
+    # pattern), and a clean stamp statement in the same position
+    v = Variant("v0", [Stmt("h1", ex=["a"]), Stmt("h2", ex=["b"]), Stmt("headers", oo=["h1", "h2"], phony=True),
+                       Stmt("obj", ex=["src"], oo=["headers"]), Stmt("stamp", ex=["c"], oo=["h1", "h2"]), Stmt("obj2", ex=["src"], oo=["stamp"]),
+                       Stmt("top", ex=["obj", "obj2"])])
+    T += _mk("alias_before_two_producers", [v], tags=["phony", "order-only"], depth=d, js=(2, 3), max_fault_stmts=2)
 
     # T32 declared sources that are missing and have no rule: as explicit, implicit, order-only input and as a validation,
     # of statements with and without work to do (C05: reported before any command runs)
